@@ -265,8 +265,15 @@ def check_rank_layout(ctx, F, tag):
                         continue
                     t_ = core(fold_consts(nb.term_of_rvalue(d[3])))
                     grows = t_[0] == "bin" and t_[1] == "Add" and any(core(x)[:2] == ("var", l_) for x in (t_[2], t_[3]))
-                    if not (t_[:2] == ("const", 0) or grows):
+                    if t_[:2] == ("const", 0) or grows:
+                        continue
+                    # refuted only by what is a bound by construction (min / clamp / a mask); another spelling of the addition
+                    # (checked_add(..).unwrap(), a helper) is not read here: undecided
+                    bounded = (t_[0] == "call" and t_[1].split("::")[-1] in ("min", "clamp", "saturating_sub")) or (t_[0] == "bin" and t_[1] in ("BitAnd", "Rem"))
+                    if bounded:
                         a_ok = False
+                    elif a_ok:
+                        a_ok = None
         parts = {"slot k filled by << (k * %d)" % RRB: s_ok, "last slot masked with low_set(%d)" % ((WPB - 1) * RRB): m_ok, "sample pushed before ones += block_ones": p_ok,
                  "running counts only grow": a_ok}
         verdict = False if any(v is False for v in parts.values()) else (None if any(v is None for v in parts.values()) else True)
